@@ -278,16 +278,33 @@ func runL3(c *core.Ctx) {
 		c.Check(good, "ast.newRawNode/allocates-lock", fd.Pos(), "m allocated whenever lock is requested, for every value kind", "newRawNode does not allocate the mutex unconditionally on lock==true (some kinds of concurrently readable raw nodes have no lock)")
 	}
 	if fd := core.FuncDecl(pk, "Node", "Load"); fd != nil {
-		recv := recvObj(p, fd)
+		// Load itself, or a method it calls on its own receiver (loadSelf), assigns the
+		// receiver's m
 		good := false
-		ast.Inspect(fd.Body, func(n ast.Node) bool {
-			if as, ok := n.(*ast.AssignStmt); ok && len(as.Lhs) == 1 {
-				if f, ok := selOn(p, as.Lhs[0], recv); ok && f == "m" {
-					good = true
+		var scan func(fd *ast.FuncDecl, depth int)
+		scan = func(fd *ast.FuncDecl, depth int) {
+			recv := recvObj(p, fd)
+			ast.Inspect(fd.Body, func(n ast.Node) bool {
+				switch x := n.(type) {
+				case *ast.AssignStmt:
+					if len(x.Lhs) == 1 {
+						if f, ok := selOn(p, x.Lhs[0], recv); ok && f == "m" {
+							good = true
+						}
+					}
+				case *ast.CallExpr:
+					if se, ok := x.Fun.(*ast.SelectorExpr); ok && depth < 2 {
+						if id, ok := ast.Unparen(se.X).(*ast.Ident); ok && p.ObjectOf(id) == recv {
+							if callee := core.FuncDecl(pk, "Node", se.Sel.Name); callee != nil && callee.Body != nil {
+								scan(callee, depth+1)
+							}
+						}
+					}
 				}
-			}
-			return true
-		})
+				return true
+			})
+		}
+		scan(fd, 0)
 		c.Check(good, "ast.(Node).Load/installs-lock", fd.Pos(), "Load installs m when absent", "Load no longer installs a mutex on the node")
 	}
 }
